@@ -26,7 +26,7 @@ RULE = ('seeded plans: data stack (3-8 RDMs, 5-12 conditions, dyadic values with
         'usable/unusable thresholds. Non-trivial = the routine returned and the reference re-evaluated at least one '
         'stored number; distinct = distinct (routine, option class, model kinds, method, draw-fault multiset, '
         '#unusable class) signatures.')
-ASSUMPTIONS = ['compare(), pool_rdm, boot_noise_ceiling/cv_noise_ceiling and Model.predict are trusted primitives here '
+ASSUMPTIONS = ['compare(), pool_rdm and Model.predict are trusted primitives here (the noise ceilings are recomputed from pooling and comparison) '
                '(they belong to other properties); a numerical failure inside a fitter is not judged',
                'numpy global RNG is the only entropy source (the reproducibility replay notices any other)',
                'documented usability thresholds as in DESIGN.md Appendix C']
@@ -221,6 +221,41 @@ def _replica(rdms):
     return RDMs(np.array(rdms.dissimilarities, copy=True), dissimilarity_measure=rdms.dissimilarity_measure,
                 descriptors=deepcopy(rdms.descriptors), rdm_descriptors=deepcopy(rdms.rdm_descriptors),
                 pattern_descriptors=deepcopy(rdms.pattern_descriptors))
+
+
+def _ref_boot_ceiling(rdms, method='cosine', rdm_descriptor='index'):
+    """the leave-one-group-out noise ceiling of a set of RDMs, from pooling and comparison only (those two stay trusted):
+    lower bound = mean over groups of compare(pool(all other groups), group), upper bound = the same with pool(all)"""
+    from rsatoolbox.util.inference_util import pool_rdm
+    from rsatoolbox.rdm import compare
+    labels = normlist(rdms.rdm_descriptors[rdm_descriptor])
+    groups = []
+    for v in labels:
+        if v not in groups:
+            groups.append(v)
+    pred_all = pool_rdm(rdms, method=method)
+    lo, hi = [], []
+    for g in groups:
+        te_idx = [i for i, v in enumerate(labels) if v == g]
+        tr_idx = [i for i, v in enumerate(labels) if v != g] if len(groups) > 1 else te_idx
+        test, train = rdms[te_idx], rdms[tr_idx]
+        lo.append(np.mean(compare(pool_rdm(train, method=method), test, method)))
+        hi.append(np.mean(compare(pred_all, test, method)))
+    return float(np.mean(lo)), float(np.mean(hi))
+
+
+def _ref_cv_ceiling(rdms, ceil_set, test_set, method='cosine', pattern_descriptor='index'):
+    """the cross-validated ceiling of given (ceil, test) sets: training RDMs pooled with the method in use and taken at
+    the fold's test conditions (lower), all RDMs pooled and taken at the test conditions (upper)"""
+    from rsatoolbox.util.inference_util import pool_rdm
+    from rsatoolbox.rdm import compare
+    lo, hi = [], []
+    for train, test in zip(ceil_set, test_set):
+        p_tr = pool_rdm(train[0], method=method).subsample_pattern(by=pattern_descriptor, value=test[1])
+        p_all = pool_rdm(rdms, method=method).subsample_pattern(by=pattern_descriptor, value=test[1])
+        lo.append(np.mean(compare(p_tr, test[0], method)))
+        hi.append(np.mean(compare(p_all, test[0], method)))
+    return float(np.mean(lo)), float(np.mean(hi))
 
 
 def _marg(plan, models):
@@ -614,7 +649,7 @@ def oracle(ctx, plan, obs):
                                   f'eval_fixed: model {ref.name}, RDM {k}: stored {ev[0, j, k]!r}, direct comparison gives {exp!r}')
                     return
                 ctx.probe('fixed_scores_reproduced')
-        nc = real['boot_noise_ceiling'](_replica(data), method=method, rdm_descriptor='index')
+        nc = _ref_boot_ceiling(_replica(data), method=method, rdm_descriptor='index')
         if not _close(res.noise_ceiling, nc):
             ctx.violation('eval_ref.clause3', 'eval_fixed:ceiling', f'eval_fixed: noise ceiling {np.asarray(res.noise_ceiling).tolist()} != ceiling of the data {list(nc)}')
         if res.dof != data.n_rdm - 1:
@@ -635,7 +670,7 @@ def oracle(ctx, plan, obs):
         if sets[2] is not None and obs.cv_nc:
             test_adv = [[t[0], adv] for t, adv in zip(sets[1], obs.adv_test)]
             try:
-                nc = real['cv_noise_ceiling'](_replica(data), sets[2], test_adv, method=method, pattern_descriptor=obs.cv_pdesc)
+                nc = _ref_cv_ceiling(_replica(data), sets[2], test_adv, method=method, pattern_descriptor=obs.cv_pdesc)
             except Exception:
                 nc = None
             if nc is not None and not _close(res.noise_ceiling, nc):
@@ -649,7 +684,7 @@ def oracle(ctx, plan, obs):
                 for tr, te, adv in zip(sets[0], sets[1], obs.adv_test):
                     if _fold_small(tr, te):
                         continue
-                    exp.append(real['boot_noise_ceiling'](_replica(data).subsample_pattern(by=obs.cv_pdesc, value=adv), method=method))
+                    exp.append(_ref_boot_ceiling(_replica(data).subsample_pattern(by=obs.cv_pdesc, value=adv), method=method))
                 exp = np.array(exp).T
             except Exception:
                 exp = None
@@ -790,7 +825,7 @@ def oracle(ctx, plan, obs):
                     return
                 ctx.probe('resample_scores_reproduced')
             if o['boot_noise_ceil']:
-                exp_nc = real['boot_noise_ceiling'](_replica(sample), method=method, rdm_descriptor=rd)
+                exp_nc = _ref_boot_ceiling(_replica(sample), method=method, rdm_descriptor=rd)
                 if ncrow is None or not _close(ncrow, exp_nc):
                     ctx.violation('eval_ref.clause3', f'{routine}:ceiling',
                                   f'{routine}: resample {i}: stored ceilings {None if ncrow is None else ncrow.tolist()} != ceilings of that resample {list(exp_nc)}')
@@ -880,7 +915,7 @@ def oracle(ctx, plan, obs):
     n_un = usable_flags.count(False)
     # ---------- clause 3 when ceilings are not bootstrapped
     if routine in ('eval_bootstrap', 'eval_bootstrap_pattern', 'eval_bootstrap_rdm') and not o['boot_noise_ceil']:
-        exp_nc = real['boot_noise_ceiling'](_replica(data), method=method, rdm_descriptor=rd)
+        exp_nc = _ref_boot_ceiling(_replica(data), method=method, rdm_descriptor=rd)
         if not _close(ncl, exp_nc):
             ctx.violation('eval_ref.clause3', f'{routine}:ceiling-full', f'{routine}: ceilings {ncl.tolist()} != ceilings of the full data {list(exp_nc)}')
     # ---------- clause 4: dof
@@ -932,8 +967,8 @@ def _recompute_cv_nc(real, plan, obs, folded, s_ent, method, pdn, rd):
             crossed = obs.k_rdm > 1 or obs.k_pattern > 1
         if crossed:
             test_adv = [[t[0], adv] for t, adv in zip(s_ent['result'][1], s_ent['raw_test_idx'])]
-            return real['cv_noise_ceiling'](_replica(folded), s_ent['result'][2], test_adv, method=method, pattern_descriptor=pdn)
-        return real['boot_noise_ceiling'](_replica(folded), method=method, rdm_descriptor=rd)
+            return _ref_cv_ceiling(_replica(folded), s_ent['result'][2], test_adv, method=method, pattern_descriptor=pdn)
+        return _ref_boot_ceiling(_replica(folded), method=method, rdm_descriptor=rd)
     except Exception:
         return None
 
